@@ -8,20 +8,27 @@ from vlib import runner
 
 ID = "C07"
 MODULE = "PotasscoVerif.Props.C07"
+EXTRA_MODULES = ["PotasscoVerif.Lemmas.AspifLang", "PotasscoVerif.Props.C07b"]
 THEOREMS = ["PotasscoVerif.C07.C07_fields_exact", "PotasscoVerif.C07.C07_ext_gating", "PotasscoVerif.C07.C07_incremental_needs_ext",
-            "PotasscoVerif.C07.C07_assign_values", "PotasscoVerif.C03.C03_number_exact", "PotasscoVerif.C03.C03_reject_out_of_range"]
-PARTIAL = {"C07_sound/C07_complete": "acceptance <-> declarative smodels grammar is not proved; decided by correspondence + reference acceptor"}
+            "PotasscoVerif.C07.C07_assign_values", "PotasscoVerif.C03.C03_number_exact", "PotasscoVerif.C03.C03_reject_out_of_range",
+            "PotasscoVerif.C07.C07_complete", "PotasscoVerif.C07.C07_sound", "PotasscoVerif.C07.C07_rejects", "PotasscoVerif.C07.C07_ext_rules_need_ext",
+            "PotasscoVerif.C07.Spec.ruleOf", "PotasscoVerif.C07.Spec.sum", "PotasscoVerif.C07.rulesLoop_sound", "PotasscoVerif.C07.rulesLoop_complete",
+            "PotasscoVerif.C07.symbolsLoop_sound", "PotasscoVerif.C07.symbolsLoop_complete", "PotasscoVerif.C07.compute_sound", "PotasscoVerif.C07.compute_complete",
+            "PotasscoVerif.C07.extra_sound", "PotasscoVerif.C07.extra_complete", "PotasscoVerif.C07.step_sound", "PotasscoVerif.C07.step_complete"]
+PARTIAL = {}
 BSIZES = (16, 17, 4096)
 RULE = ("well-formed (optionally clasp-extended, 1-3 step) smodels texts with random layout, then at most one mutation (numeric field -> 2^31, 2^32+-1, 2^63, 2^64+1, 10^40, 0, "
         "value+-1, unknown rule type, 90/91/92 without extensions; truncation; token deleted/duplicated); distinct = distinct (ext,text); non-trivial = at least 10 tokens")
 TRUSTED = ["props/smodels_ref.py is the executable reading of 'well-formed smodels program' used as oracle"]
 ASSUMPTIONS = ["texts without NUL bytes; symbol names without line ends"]
-TECHNIQUE = "Lean 4 theorems on the reader model (number fields exact-or-rejected for any digit count, extension gating) + differential correspondence with SmodelsInput + reference acceptor oracle"
-LEVEL_TEXT = ("C07_fields_exact: every numeric field of the smodels reader model (counts, atoms, bounds, weights, values) is read by a matcher that, for a digit string of any "
-              "length, yields exactly the denoted number or fails (never a cast/wrapped value); C07_ext_gating / C07_incremental_needs_ext: rule types 90/91/92 and a leading '9' are "
-              "refused without clasp extensions. 'Accepts exactly the well-formed texts and delivers the denoted rules' is decided by reader model == real SmodelsInput on generated and "
-              "mutated texts (3 buffer sizes, ext on/off) and by an independent reference acceptor on the implementation.")
-LEVEL_NOTE = "Partial proof + correspondence (~3k quick / 100k thorough texts x 3 buffer sizes). Trusted: Lean kernel+axioms, reference acceptor, harness."
+TECHNIQUE = "Lean 4 theorems on the reader model (soundness and completeness against a declarative grammar of (clasp-extended) smodels programs in every layout; number fields exact-or-rejected for any digit count; extension gating) + differential correspondence with SmodelsInput + reference acceptor oracle"
+LEVEL_TEXT = ("Props/C07b.lean: the smodels grammar `Prog7` (languages built from number tokens, sequencing, repetition and case distinction: rules of every type incl. the clasp extensions, symbol table, B+/B-, "
+              "optional E section, number of models; strict = whitespace-separated tokens in any layout, lenient = what the reader also tolerates). C07_complete: every strict text is accepted and exactly the denoted rules, "
+              "outputs, integrity constraints and externals are delivered in order (minimize priorities 0,1,...); C07_sound: whatever the reader accepts (NUL-free) is a lenient text denoting exactly what was delivered — "
+              "atoms within 1..2^31-1, bounds and weights within 0..2^31-1, counts matched; C07_rejects; C07_ext_rules_need_ext (types 90/91/92 are no rules of the grammar without extensions). "
+              "C07_fields_exact: every numeric field is read by a matcher that, for a digit string of any length, yields exactly the denoted number or fails; C07_ext_gating / C07_incremental_needs_ext. "
+              "In addition reader model == real SmodelsInput on generated and mutated texts (3 buffer sizes, ext on/off) and an independent reference acceptor on the implementation.")
+LEVEL_NOTE = "Proof (grammar soundness/completeness, numbers, gating) + correspondence (~3k quick / 100k thorough texts x 3 buffer sizes). Trusted: Lean kernel+axioms, reference acceptor, harness."
 
 I32 = 2**31 - 1
 BAD = [2**31, 2**32 - 1, 2**32, 2**32 + 1, 2**63, 2**64 + 1, 10**40, 0, 1, 2, 3, 4, 7, 9, 90, 91, 92, 100]
